@@ -33,7 +33,7 @@ ASSUMPTIONS = [
 ]
 DYNAMIC = ["dyn-child-of-YTKEntry", "dyn-typed-child", "dyn-same-name-YTKPart1", "dyn-generic-BsaI-module",
            "dyn-structure-override", "dyn-vector-part", "dyn-grandchild-of-part", "dyn-blunt-cutter-child", "dyn-no-cutter-child",
-           "dyn-3p-BtsI-part", "dyn-3p-BsrDI-part", "dyn-3p-BtsI-vector-part"]
+           "dyn-3p-BtsI-part", "dyn-3p-BsrDI-part", "dyn-3p-BtsI-vector-part", "dyn-sig-upper-NN", "dyn-sig-lower-nn"]
 UNUSABLE = {"dyn-blunt-cutter-child": "YTKEntry", "dyn-no-cutter-child": "YTKEntry"}     # witnesses are those of the parent
 
 
@@ -81,6 +81,9 @@ def define(name):
         return type(str("MyBluntEntry"), (ytk.YTKEntry,), {"cutter": EcoRV})
     if name == "dyn-no-cutter-child":
         return type(str("MyCutterlessEntry"), (ytk.YTKEntry,), {"cutter": NotImplemented})
+    # two parts whose signatures differ in the CASE of an ambiguity code only: `NN` is a wildcard, `nn` is read as the letters themselves
+    if name in ("dyn-sig-upper-NN", "dyn-sig-lower-nn"):
+        return type(str("MySig" + name[-2:]), (ytk.YTKPart, ytk.YTKEntry), {"signature": ("CCNN" if name.endswith("NN") else "CCnn", "GCTT")})
     # signature-typed parts over enzymes that leave 3' overhangs (no kit has one; two of them, so that one can come after the other)
     if name in ("dyn-3p-BtsI-part", "dyn-3p-BsrDI-part", "dyn-3p-BtsI-vector-part"):
         import Bio.Restriction as R
@@ -127,7 +130,16 @@ def three_prime_text(name, body):
     return gen.mk_module(g, "AC", body, "GT", gen.word(1, 31, 5, forbid), x=x, y=y)
 
 
+def sig_case_text(body):
+    """witness of the dyn-sig-* classes (a BsaI module CCAT ... GCTT), built without asking the classes for their structure"""
+    g = gen.geometry_of(gen.enzyme("BsaI"))
+    forbid = ["GGTCTC", "GAGACC"]
+    return gen.mk_module(g, "CCAT", body, "GCTT", gen.word(1, 31, 5, forbid), x=gen.word(0, 3, g.off, forbid), y=gen.word(0, 17, g.off, forbid))
+
+
 def own_instance(cls, name):
+    if name.startswith("dyn-sig-"):
+        return sig_case_text(gen.word(0, 9, 5, ["GGTCTC", "GAGACC"]))
     if name.startswith("dyn-3p-"):
         import Bio.Restriction as R
         return three_prime_text(name, gen.word(0, 9, 5, [getattr(R, name.split("-")[2]).site]))
@@ -145,6 +157,9 @@ _long = {}
 def long_instance(cls, name, illegal):
     """instance of the class structure whose wildcard run is a 96-letter word; `illegal` puts one more cutter site in its middle
     (both spellings share their first 60 and last letters: look-alikes for anything that compares or caches by prefix)"""
+    if name.startswith("dyn-sig-"):
+        w = gen.long_word(96, seed=5, forbid=["GGTCTC", "GAGACC", "CGTCTC", "GAAGAC"])
+        return sig_case_text((w[:66] + "GGTCTC" + w[72:]) if illegal else w)
     if name.startswith("dyn-3p-"):
         import Bio.Restriction as R
         site = getattr(R, name.split("-")[2]).site
